@@ -14,7 +14,7 @@ INFO = {
                "through self (no assignment to, and no &mut borrow of, any field but `next`); no Get impl has an "
                "interior-mutable field; each record gets a Context freshly built from that record's parsed value; "
                "the Get impls that can reach the clock, the environment, the file system or other processes are "
-               "exactly now, env, exec and trigger.",
+               "exactly now, env, exec and trigger. No stage but the limiter answers Break on its own (every process body evaluated with the successor answering Continue), and the tokenizer tables (dispatch, blanks, number grammar, escapes) accept every valid value wholly, so the reader is in phase for the value that follows.",
     "not_decided": "The equation out(A.B) = out(A).out(B) itself (a statement about two runs).",
     "trusted": ["sa/tables/state.toml", "Rust: without interior mutability or statics a &self method cannot keep state"],
 }
@@ -78,6 +78,16 @@ def run(ctx, rep):
         else:
             r.ok(st.short + "::process", "writes nothing through self except calling self.next", b.where())
     get_pure(rep, lib)
+    from rules import pipeline_rules as _P
+    _P.break_origin(rep, lib)
+    # out(A.B) = out(A).out(B) needs the reader to take exactly the bytes of every valid value: a valid value it
+    # rejects half-way leaves it out of phase for the values that follow (the tokenizer tables, shared with C01)
+    from rules import parser_rules as _PRS
+    _PRS.dispatch(rep, lib)
+    _PRS.ws(rep, lib)
+    _PRS.number(rep, lib)
+    _PRS.escapes(rep, lib)
+    _PRS.ws_struct(rep, lib)
     # ------------------------------------------------------------ FRESH-CONTEXT
     r = rep.rule("C11-FRESH-CONTEXT", "every record is processed in a Context built by Context::new_with_input in "
                  "the same loop iteration from that iteration's parsed value", floor=1, analysis="A2 + A4 in read_input")
